@@ -168,6 +168,7 @@ impl Property for C10 {
             None => return out,
         };
         let ng = non_growing(&case.pg.program);
+        let fin = finite_answers(&case.pg.program);
         let mut configs = vec![Sv::Slg, Sv::Rec];
         if ng {
             configs.push(Sv::RecNoCache);
@@ -176,16 +177,21 @@ impl Property for C10 {
             let mut fresh_all: Vec<Vec<Option<String>>> = vec![];
             for sv in &configs {
                 // fresh answers
+                let mut fresh_sols: Vec<Option<Option<chalk_solve::Solution<chalk_integration::interner::ChalkIr>>>> = vec![];
                 let fresh: Vec<Option<String>> = low
                     .goals
                     .iter()
                     .map(|lg| {
-                        let lg = lg.as_ref()?;
-                        out.evals += 1;
-                        match solve_fresh(&*low.program, sv.choice(), &lg.peeled.goal, DEFAULT_BUDGET).0 {
-                            Run::Done(s) => Some(render(&s)),
-                            _ => None, // panics/budget on fresh solvers are judged by C01/C09
-                        }
+                        let r = (|| {
+                            let lg = lg.as_ref()?;
+                            out.evals += 1;
+                            match solve_fresh(&*low.program, sv.choice(), &lg.peeled.goal, DEFAULT_BUDGET).0 {
+                                Run::Done(s) => Some(s),
+                                _ => None, // panics/budget on fresh solvers are judged by C01/C09
+                            }
+                        })();
+                        fresh_sols.push(r.clone());
+                        r.map(|s| render(&s))
                     })
                     .collect();
                 let mut solver = sv.choice().into_solver();
@@ -197,8 +203,13 @@ impl Property for C10 {
                     };
                     out.evals += 1;
                     let (run, _) = solve_with(&mut *solver, &*low.program, &lg.peeled.goal, DEFAULT_BUDGET);
+                    let mut got_sol = None;
                     let got = match run {
-                        Run::Done(s) => render(&s),
+                        Run::Done(s) => {
+                            let r = render(&s);
+                            got_sol = Some(s);
+                            r
+                        }
                         Run::Overflow | Run::Budget => {
                             out.bump(&format!("{}:history_abandoned(overflow/budget)", sv.name()));
                             break;
@@ -216,8 +227,22 @@ impl Property for C10 {
                     };
                     if &got != exp {
                         let st = crate::refsem::solution_sets(&case.pg.program, &case.pg.goals[*gi], 2, 50).st;
-                        let dc = diff_class(exp, &got);
-                        let co = if st.co_cycle && !dc.contains("repeated-var") { ":coinductive-cycle" } else { "" };
+                        let mut dc = diff_class(exp, &got);
+                        // Goals whose answer set is unbounded (growing where-clauses, or unknowns over impls that
+                        // generate ever larger answers) are cut off by the size limit at a point that depends on
+                        // what is already tabled: if the two answers merely differ in precision (they do not
+                        // contradict each other in the sense of C04) this is the recorded truncation finding.
+                        let within = ng && (goal_is_closed(&case.pg.goals[*gi]) || fin);
+                        if !within && !dc.contains("repeated-var") {
+                            let names = Names { program: &low.program, model: &case.pg.program };
+                            let fresh_sol = fresh_sols[*gi].clone();
+                            if let (Some(f), Some(g)) = (fresh_sol, got_sol.clone()) {
+                                if super::c04::incompatible(&names, &lg.peeled, &f, &g, &mut out).is_none() {
+                                    dc = "precision-only:unbounded-answers".into();
+                                }
+                            }
+                        }
+                        let co = if st.co_cycle && !dc.contains("repeated-var") && !dc.contains("unbounded") { ":coinductive-cycle" } else { "" };
                         out.fail(
                             format!("{}:history-differs:{}{}", sv.name(), dc, co),
                             format!("[{}] goal `{}` at history position {}: fresh solver says `{}`, used solver says `{}`\n{}history (goal texts): {:?}", sv.name(), lg.text, pos, exp, got, low.text, case.history[..=pos].iter().map(|i| low.goals[*i].as_ref().map(|g| g.text.clone()).unwrap_or_default()).collect::<Vec<_>>()),
